@@ -7,6 +7,7 @@ of the working tree (imported through harness.common.import_lentil()):
                          objects / no fields at all)
     x  Plane(ptype=p) for every p in lentil.ptype.PTYPES      } each with an overlapping aperture and
     x  every public plane class of the `lentil` namespace     } with one disjoint from all the light
+       - with its default ptype and with every ptype its constructor accepts (ptype=... override)
     x  propagate_dft / propagate_fft
 
 with real (small) arrays, several constructions of every object.  Recorded per cell: the state of
@@ -57,6 +58,10 @@ FOCAL = (8.0, 16.0)
 
 class GeneratorError(Exception):
     pass
+
+
+class OverrideRefused(GeneratorError):
+    """a class constructor does not take the ptype= keyword (or not this value)"""
 
 
 # ------------------------------------------------------------------------------------------
@@ -150,10 +155,11 @@ def n_variants(kind, name, clip=False):
         return len(PLANE_VARIANTS)
     if kind == 'prop':
         return len(DFT_VARIANTS) if name == 'dft' else len(FFT_VARIANTS)
+    # the tilt classes take the Plane keywords too: first the bare forms, then with a sampled aperture
     if name in ('Tilt',):
-        return len(TILT_VARIANTS)
+        return len(TILT_VARIANTS) + len(PLANE_VARIANTS)
     if name in ('DispersiveTilt', 'Grism'):
-        return len(DISP_VARIANTS)
+        return len(DISP_VARIANTS) + len(PLANE_VARIANTS)
     if name == 'Rotate':
         return len(ROT_VARIANTS)
     if name == 'Flip':
@@ -163,11 +169,18 @@ def n_variants(kind, name, clip=False):
     return len(PLANE_VARIANTS)
 
 
-def build_plane(lentil, kind, name, v, clip=False):
+def build_plane(lentil, kind, name, v, clip=False, po=None):
     """kind 'mulp': Plane(ptype=name, ...);  kind 'mulc': an instance of the public class `name`.
     v selects one of the constructions; clip=True asks for an aperture disjoint from all the light
-    (ignored by Rotate and Flip, which take no aperture).
+    (ignored by Rotate and Flip, which take no aperture); po = a plane type name: pass it to the class
+    constructor as ptype= (as the object or as the string, alternating with v).
     Raises GeneratorError if the object cannot be built."""
+    if po is not None and kind == 'mulc':
+        if po not in PTYPES:
+            raise GeneratorError(f'unknown plane type {po!r}')
+        okw = {'ptype': po if v % 2 else getattr(lentil, po)}
+    else:
+        okw = {}
     with warnings.catch_warnings():
         warnings.simplefilter('ignore')
         try:
@@ -179,31 +192,57 @@ def build_plane(lentil, kind, name, v, clip=False):
                 return lentil.Plane(ptype=(name if v % 2 else getattr(lentil, name)), **samp())
             cls = getattr(lentil, name)
             if name == 'Plane':
-                return cls(**samp())
+                return cls(**samp(), **okw)
             if name == 'Pupil':
-                return cls(focal_length=FOCAL[(v // nsamp) % len(FOCAL)], **samp())
+                return cls(focal_length=FOCAL[(v // nsamp) % len(FOCAL)], **samp(), **okw)
             if name == 'Tilt':
                 x, y = TILT_VARIANTS[v % len(TILT_VARIANTS)]
-                return cls(x=x, y=y, **(samp() if clip else {}))
+                if not clip and v >= len(TILT_VARIANTS):
+                    return cls(x=x, y=y, **PLANE_VARIANTS[(v - len(TILT_VARIANTS)) % len(PLANE_VARIANTS)](), **okw)
+                return cls(x=x, y=y, **(samp() if clip else {}), **okw)
             if name in ('DispersiveTilt', 'Grism'):
                 tr, di = DISP_VARIANTS[v % len(DISP_VARIANTS)]
-                return cls(trace=list(tr), dispersion=list(di), **(samp() if clip else {}))
+                if not clip and v >= len(DISP_VARIANTS):
+                    return cls(trace=list(tr), dispersion=list(di),
+                               **PLANE_VARIANTS[(v - len(DISP_VARIANTS)) % len(PLANE_VARIANTS)](), **okw)
+                return cls(trace=list(tr), dispersion=list(di), **(samp() if clip else {}), **okw)
             if name == 'Rotate':
-                return cls(**ROT_VARIANTS[v % len(ROT_VARIANTS)])
+                return cls(**ROT_VARIANTS[v % len(ROT_VARIANTS)], **okw)
             if name == 'Flip':
-                return cls(**FLIP_VARIANTS[v % len(FLIP_VARIANTS)])
+                return cls(**FLIP_VARIANTS[v % len(FLIP_VARIANTS)], **okw)
             # Image, LensletArray and any public class this file has no recipe for: the Plane
             # keywords, then no arguments at all
             try:
-                return cls(**samp())
+                return cls(**samp(), **okw)
             except TypeError:
-                if clip:
+                if clip or okw:
                     raise
                 return cls()
         except GeneratorError:
             raise
+        except TypeError as e:
+            if okw:
+                raise OverrideRefused(f'{name}(ptype={po}): {e}')
+            raise GeneratorError(f'cannot construct {kind} {name} (variant {v}, clip={clip}): TypeError: {e}')
         except Exception as e:
-            raise GeneratorError(f'cannot construct {kind} {name} (variant {v}, clip={clip}): {type(e).__name__}: {e}')
+            raise GeneratorError(f'cannot construct {kind} {name} (variant {v}, clip={clip}, ptype={po}): '
+                                 f'{type(e).__name__}: {e}')
+
+
+def accepts_override(lentil, name, po):
+    """does the constructor of the public class `name` take ptype=po?  (TypeError from the call itself = no;
+    the answer must not depend on the construction)"""
+    res = set()
+    for clip in (False, True):
+        for v in range(n_variants('mulc', name, clip)):
+            try:
+                build_plane(lentil, 'mulc', name, v, clip, po)
+                res.add(True)
+            except OverrideRefused:
+                res.add(False)
+    if len(res) != 1:
+        raise GeneratorError(f'{name}(ptype={po}) is accepted for some constructions and refused for others')
+    return res.pop()
 
 
 def build_wavefront(lentil, wt, body, v=0):
@@ -284,7 +323,7 @@ def observe_all():
     classes = class_names(lentil)
     states = [(wt, b) for wt in WTYPES for b in BODIES]
 
-    def cell(kind, name, clip, st):
+    def cell(kind, name, clip, st, po=None):
         seen = {}
         nv = n_variants(kind, name, clip)
         for v in range(nv):
@@ -293,24 +332,37 @@ def observe_all():
                 if kind == 'prop':
                     o = observe(lentil, lambda ww: do_propagate(lentil, name, ww, v), w)
                 else:
-                    pl = build_plane(lentil, kind, name, v, clip)
+                    pl = build_plane(lentil, kind, name, v, clip, po)
                     o = observe(lentil, lambda ww: ww * pl, w)
                     o2 = observe(lentil, pl.multiply, build_wavefront(lentil, st[0], st[1], wv))
                     if o2 != o:
                         raise GeneratorError(f'{kind} {name}: w * plane gives {o}, plane.multiply(w) gives {o2}')
                 seen.setdefault(o, (v, wv))
         if len(seen) != 1:
-            raise GeneratorError(f'{kind} {name} (clip={clip}) on {st}: outcome depends on the construction, not only '
+            raise GeneratorError(f'{kind} {name} (clip={clip}, ptype={po}) on {st}: outcome depends on the construction, not only '
                                  f'on the types: {seen}')
         return next(iter(seen))
 
-    obs = {'classes': classes, 'states': states, 'mul': {}, 'cls': {}, 'prop': {}, 'class_ptype': {}}
+    obs = {'classes': classes, 'states': states, 'mul': {}, 'cls': {}, 'prop': {}, 'class_ptype': {},
+           'override_ptype': {}}
+    # which ptype overrides each class constructor takes, and the ptype the instance then carries
+    for k in classes:
+        for po in PTYPES:
+            if accepts_override(lentil, k, po):
+                pts = {ptype_name(build_plane(lentil, 'mulc', k, v, clip, po).ptype)
+                       for clip in (False, True) for v in range(n_variants('mulc', k, clip))}
+                if len(pts) != 1:
+                    raise GeneratorError(f'{k}(ptype={po}): ptype depends on the construction: {pts}')
+                obs['override_ptype'][(k, po)] = pts.pop()
+    overrides = [None] + PTYPES
     for st in states:
         for clip in (False, True):
             for p in PTYPES:
                 obs['mul'][(st, p, clip)] = cell('mulp', p, clip, st)
             for k in classes:
-                obs['cls'][(k, clip, st)] = cell('mulc', k, clip, st)
+                for po in overrides:
+                    if po is None or (k, po) in obs['override_ptype']:
+                        obs['cls'][(k, po, clip, st)] = cell('mulc', k, clip, st, po)
         for m in METHODS:
             obs['prop'][(m, st)] = cell('prop', m, False, st)
     for k in classes:
@@ -323,10 +375,11 @@ def observe_all():
     # ---- history of the plane object: every cell again with a plane that was used before in a
     # different permitted cell (another wavefront type), directly and through copy()
     n_hist = 0
-    specs = [('mulp', p, clip) for p in PTYPES for clip in (False, True)] + \
-            [('mulc', k, clip) for k in classes for clip in (False, True)]
-    for kind, name, clip in specs:
-        tab = (lambda st: obs['mul'][(st, name, clip)]) if kind == 'mulp' else (lambda st: obs['cls'][(name, clip, st)])
+    specs = [('mulp', p, clip, None) for p in PTYPES for clip in (False, True)] + \
+            [('mulc', k, clip, po) for k in classes for clip in (False, True) for po in overrides
+             if po is None or (k, po) in obs['override_ptype']]
+    for kind, name, clip, po in specs:
+        tab = (lambda st: obs['mul'][(st, name, clip)]) if kind == 'mulp' else (lambda st: obs['cls'][(name, po, clip, st)])
         v = 0
         for w0 in WTYPES:
             if tab((w0, 'plain'))[0] != 'yields':
@@ -336,7 +389,7 @@ def observe_all():
                     continue
                 for via_copy in (False, True):
                     v += 1
-                    pl = build_plane(lentil, kind, name, v % n_variants(kind, name, clip), clip)
+                    pl = build_plane(lentil, kind, name, v % n_variants(kind, name, clip), clip, po)
                     first = observe(lentil, lambda ww: ww * pl, build_wavefront(lentil, w0, 'plain'))
                     if first != tab((w0, 'plain')):
                         raise GeneratorError(f'{kind} {name} on {(w0, "plain")}: {first} now, {tab((w0, "plain"))} before')
@@ -347,7 +400,7 @@ def observe_all():
                     n_hist += 1
                     if o != tab(st):
                         raise GeneratorError(
-                            f'{kind} {name} (clip={clip}) on {st}: a fresh plane object gives {tab(st)}, one that '
+                            f'{kind} {name} (clip={clip}, ptype={po}) on {st}: a fresh plane object gives {tab(st)}, one that '
                             f'was used before with a {w0} wavefront{" and then copied" if via_copy else ""} gives {o}: '
                             f'the outcome is not a function of the types')
     obs['history_observations'] = n_hist
@@ -355,7 +408,7 @@ def observe_all():
     # implementation-defined facts about tilt (see Model/PType.v:doc_machine)
     obs['class_tilts'] = {}
     for k in classes:
-        ys = [obs['cls'][(k, False, (wt, 'plain'))] for wt in WTYPES]
+        ys = [obs['cls'][(k, None, False, (wt, 'plain'))] for wt in WTYPES]
         obs['class_tilts'][k] = any(o[0] == 'yields' and o[1][1] == 'tilted' for o in ys)
     obs['fft_refuses_tilt'] = all(obs['prop'][('fft', (wt, 'tilted'))] == ('raises', 'NotImplementedError', (wt, 'tilted'))
                                   for wt in WTYPES)
@@ -399,6 +452,14 @@ def render(obs):
     a('Definition observed_class_ptype (k : cls) : ptype :=')
     a('  match k with ' + ' | '.join(f'{K[k]} => {P_CON[obs["class_ptype"][k]]}' for k in classes) + ' end.')
     a('')
+    a('(* <class>(..., ptype=p).ptype; None = the constructor does not take that override *)')
+    a('Definition observed_override_ptype (k : cls) (p : ptype) : option ptype :=')
+    a('  match k, p with')
+    for (k, po), q in sorted(obs['override_ptype'].items(), key=lambda t: (classes.index(t[0][0]), PTYPES.index(t[0][1]))):
+        a(f'  | {K[k]}, {P_CON[po]} => Some {P_CON[q]}')
+    a('  | _, _ => None')
+    a('  end.')
+    a('')
     a('(* w * Plane(ptype=p, ...) *)')
     a('Definition observed_mul (s : wstate) (p : ptype) (clip : bool) : outcome :=')
     a('  match ty s, body s, p, clip with')
@@ -409,12 +470,20 @@ def render(obs):
     a('  end.')
     a('')
     a('(* w * <class>(...) *)')
-    a('Definition observed_class_mul (k : cls) (clip : bool) (s : wstate) : outcome :=')
-    a('  match k, clip, ty s, body s with')
+    a('(* po = Some p: <class>(..., ptype=p); combinations the constructor refuses do not exist as objects')
+    a('   (observed_override_ptype = None): they fall into the last line and are never claimed *)')
+    a('Definition observed_class_mul (k : cls) (po : option ptype) (clip : bool) (s : wstate) : outcome :=')
+    a('  match k, po, clip, ty s, body s with')
     for k in classes:
-        for clip in (False, True):
-            for st in obs['states']:
-                a(f'  | {K[k]}, {_b(clip)}, {W_CON[st[0]]}, {B_CON[st[1]]} => {_outcome(obs["cls"][(k, clip, st)])}')
+        for po in [None] + PTYPES:
+            if po is not None and (k, po) not in obs['override_ptype']:
+                continue
+            pos = 'None' if po is None else f'Some {P_CON[po]}'
+            for clip in (False, True):
+                for st in obs['states']:
+                    a(f'  | {K[k]}, {pos}, {_b(clip)}, {W_CON[st[0]]}, {B_CON[st[1]]} => '
+                      f'{_outcome(obs["cls"][(k, po, clip, st)])}')
+    a('  | _, _, _, _, _ => Raises EOther s')
     a('  end.')
     a('')
     a('(* propagate_dft(w, ...) / propagate_fft(w, ...) *)')
